@@ -204,10 +204,10 @@ class Solver:
             st.remove_connections(structure)
         copy_dic = copy(self.connections)
         for (st1, pin1), (st2, pin2) in copy_dic.items():
-            if st1 is structure:
+            if st1 is structure or st2 is structure:
                 self.connections.pop((st1, pin1))
-            if st2 is structure:
-                self.connections.pop((st1, pin1))
+                self.connections_list.remove((st1, pin1))
+                self.connections_list.remove((st2, pin2))
         copy_dic = copy(self.free_pins)
         for st, pin in copy_dic:
             if st is structure:
